@@ -252,6 +252,15 @@ class TrackedAsyncIterator:
 
     async def aclose(self):
         self.aclose_calls += 1
+        if getattr(self.h, 'slow_close', False) and self.h._p('slowclose', self.label) < 0.5 and self.aclose_calls == 1:
+            # closing a source takes time (an "unsubscribe" round trip): whoever stops the execution is released, and the
+            # work-finished hook fires, only after the close has completed
+            label = f'{self.label}@aclose'
+            self.h.entered.add(label)
+            try:
+                await self.h.sched.gate(label)
+            finally:
+                self.h.exited.add(label)
 
     def state(self):
         return {'label': self.label, 'started': self.started, 'exhausted': self.exhausted, 'raised': self.raised,
